@@ -209,17 +209,31 @@ class SimProcess:
             child.exitcode = 1
             raise
         me.spawning = None
-        self._proc = child
-        self._parent = me.proc
-        me.proc.children.append(self)
-        self._sentinel = kernel.install(me.proc, kernel.Sentinel(child))
         st = sim.new_thread(child, lambda: _child_main(sim, child, blob), name=f'{child.name}',
                             role='child-main:' + (getattr(self._target, '__qualname__', '') or ''))
         me.nspawn += 1
         sim.ev('spawn', me.name, child.name, child.pid)
         sim.tlog('spawn', child=child.pid, name=self._name)
         sim.start_thread(st)
-        sim.yield_('proc-start')
+        # The new process exists, but the caller is still inside Popen.__init__ (handing the pickled process object to the new
+        # interpreter through a pipe): like the real Process object this one has no pid and is_alive() is False until that is
+        # over (`self._popen = ...` is the last thing start() does before its bookkeeping) - the child may well be running by then.
+        try:
+            sim.yield_('proc-start')
+        except BaseException:
+            # the launch was interrupted (a signal handler that raises, an asynchronous exception): a child that has not received
+            # its complete pickle dies of the truncated stream; one that has carries on, unknown to this Process object
+            if child.alive and not getattr(child, 'unpickled', False):
+                sim.ev('spawn-truncated', child.name)
+                sim.probe('spawn-interrupted:child-dies-of-truncated-pickle')
+                sim.exit_proc(child, 1)
+            else:
+                sim.probe('spawn-interrupted:child-lives-on')
+            raise
+        self._proc = child
+        self._parent = me.proc
+        me.proc.children.append(self)
+        self._sentinel = kernel.install(me.proc, kernel.Sentinel(child))
 
     @property
     def pid(self):
@@ -312,6 +326,7 @@ def _child_main(sim, proc, blob):
         try:
             obj = pickle.loads(blob)
             del blob
+            proc.unpickled = True
             sim.ev('child-unpickled', proc.name)
             try:
                 me.no_async = False
